@@ -873,7 +873,9 @@ func init() {
 					c.Nontrivial(src)
 				}
 			}
-			c.Count("features:"+c5features(k), 0)
+			for _, f := range strings.Split(c5features(k), ",") {
+				c.Count("feature:"+f, 1)
+			}
 			if wantA {
 				c.Count("model_accepts", 1)
 			} else {
